@@ -20,7 +20,7 @@ CALLS = (C("node_port.py", "build_call.py"), ["hugr.build.dfg.DfBase.call", "hug
 IO = (C("node_port.py", "build_io.py"), ["hugr.build.dfg.DfBase._init_io_nodes", "hugr.build.dfg.DfBase.set_outputs", "hugr.build.dfg.DfBase.add_op",
                                              "hugr.build.dfg.DfBase.new_nested", "hugr.build.dfg.DfBase.add_nested", "hugr.build.dfg.DfBase.add_tail_loop",
                                              "hugr.build.cfg.Cfg._init_impl", "hugr.build.cond_loop.Conditional._init_impl",
-                                             "hugr.build.cfg.Cfg.new_nested", "hugr.build.dfg.DfBase.add_cfg", "hugr.build.cond_loop.Conditional.new_nested"])
+                                             "hugr.build.cfg.Cfg.new_nested", "hugr.build.dfg.DfBase.add_cfg", "hugr.build.cond_loop.Conditional.new_nested", "hugr.build.dfg.DfBase.add_conditional"])
 
 
 def run(tier, seed):
@@ -41,7 +41,7 @@ def run(tier, seed):
     res.explanation = ("Proved from the real source: _ancestral_sibling returns an ancestor-or-self of the target whose parent is the source's parent (or None); DfBase._wire_up_port adds exactly the value "
                        "link source -> target port and, exactly when that ancestor is not the target itself (the wire enters a nested region), the state-order edge from the source's node to that "
                        "ancestor - and raises NoSiblingAncestor exactly when there is none; DfBase._init_io_nodes creates exactly an Input (row = the container's input row, with its count) and then an Output under the container, and DfBase.set_outputs hands "
-                       "the wires to the Output node in order and makes the container's output row the Output node's row (over a ghost trace of the graph-store calls, which C04 proves); new_nested / add_nested / add_tail_loop create the container under the requested parent (typed by the wires' types), then its Input and Output, and hand the wires to the container in order; Cfg.new_nested / add_cfg create the CFG node (typed by the wires' types) under the requested parent and hand it the wires; Cfg._init_impl creates the entry block (with the CFG's input row) first and the exit block next under the CFG node; Conditional.new_nested creates the Conditional node over the given sum under the requested parent and then the cases; Conditional._init_impl creates, for every variant in order, a Case whose input row is that variant's row followed by the other inputs, with its Input and Output (loop invariant); DfBase.call / load_function create one Call / LoadFunc node from the callee's type scheme and attach the static function edge from the callee's output 0 to the "
+                       "the wires to the Output node in order and makes the container's output row the Output node's row (over a ghost trace of the graph-store calls, which C04 proves); new_nested / add_nested / add_tail_loop create the container under the requested parent (typed by the wires' types), then its Input and Output, and hand the wires to the container in order; Cfg.new_nested / add_cfg create the CFG node (typed by the wires' types) under the requested parent and hand it the wires; Cfg._init_impl creates the entry block (with the CFG's input row) first and the exit block next under the CFG node; Conditional.new_nested / add_conditional create the Conditional node over the given sum under the requested parent and then the cases; Conditional._init_impl creates, for every variant in order, a Case whose input row is that variant's row followed by the other inputs, with its Input and Output (loop invariant); DfBase.call / load_function create one Call / LoadFunc node from the callee's type scheme and attach the static function edge from the callee's output 0 to the "
                        "operation's function port (input 0 for LoadFunc), wiring the value arguments in order; the container signatures and static-port kinds the row / edge-kind rules rest on (shared with C06) and the "
                        "serialized port offsets (shared with C03). That every well-formed builder program (all builder kinds, nesting, Ext and Dom edges, partially used multi-output operations, "
                        "linear values) yields a HUGR - and a serialized document - satisfying rules R1-R10 is decided by a bounded run of random programs against the transcribed validator -> other.")
